@@ -133,6 +133,36 @@ impl Req {
     }
 }
 
+// C08 under concurrency: the start block of a receipt is the tower's height when the request entered its critical section
+// (acquired the locator-cache lock, which block processing holds for a whole block).
+static CACHE_PROBE: std::sync::Mutex<Option<(usize, Arc<teos::watcher::Watcher>)>> = std::sync::Mutex::new(None);
+static STAMP_MISMATCH: std::sync::Mutex<Vec<String>> = std::sync::Mutex::new(Vec::new());
+thread_local! {
+    static CACHE_LOCK_HEIGHT: std::cell::Cell<Option<u32>> = const { std::cell::Cell::new(None) };
+}
+
+pub fn set_cache_probe(p: Option<(usize, Arc<teos::watcher::Watcher>)>) {
+    *CACHE_PROBE.lock().unwrap_or_else(|e| e.into_inner()) = p;
+}
+
+/// Called by the scheduler right after a simulated thread acquired a mutex.
+pub fn on_after_lock(mutex_id: usize) {
+    let g = CACHE_PROBE.lock().unwrap_or_else(|e| e.into_inner());
+    if let Some((id, w)) = g.as_ref() {
+        if *id == mutex_id {
+            let h = w.verif_height();
+            CACHE_LOCK_HEIGHT.with(|c| c.set(Some(h)));
+        }
+    }
+}
+
+fn take_stamp_mismatch() -> Option<String> {
+    let mut g = STAMP_MISMATCH.lock().unwrap_or_else(|e| e.into_inner());
+    let r = g.first().cloned();
+    g.clear();
+    r
+}
+
 /// Executes one API / node operation; returns a normalised description of the reply.
 pub fn exec_plain(req: &Req, api: &Arc<InternalAPI>, node: &SimNode, op: &Op) -> String {
     match op {
@@ -145,8 +175,19 @@ pub fn exec_plain(req: &Req, api: &Arc<InternalAPI>, node: &SimNode, op: &Op) ->
             let b = req.blob(*d, blob);
             let app = Appointment::new(loc, b.clone(), *tsd);
             let s = req.sign(*u, &app.to_vec(), sig);
+            CACHE_LOCK_HEIGHT.with(|c| c.set(None));
             match tower::api_add(api, loc.to_vec(), b, *tsd, s) {
-                Ok(r) => format!("ok slots={}", r.available_slots),
+                Ok(r) => {
+                    if let Some(h) = CACHE_LOCK_HEIGHT.with(|c| c.get()) {
+                        if r.start_block != h {
+                            STAMP_MISMATCH.lock().unwrap_or_else(|e| e.into_inner()).push(format!(
+                                "add(user {u}, dispute {d}): receipt says start_block {} but the tower was at height {h} when the request entered its critical section",
+                                r.start_block
+                            ));
+                        }
+                    }
+                    format!("ok slots={}", r.available_slots)
+                }
                 Err(e) => format!("err {:?}", e.code),
             }
         }
@@ -275,6 +316,8 @@ pub struct ConcResult {
     /// Was the node still down when the run got stuck?
     pub node_down_when_stuck: bool,
     pub replies_during_outage_ok: bool,
+    /// C08: a receipt whose start block is not the height at which the request was accepted.
+    pub stamp_mismatch: Option<String>,
 }
 
 fn project(ctx: &TowerCtx, replies: Vec<Vec<String>>, log: &EventLog, from: usize, duration: u32, base_height: u32) -> Projection {
@@ -391,6 +434,8 @@ pub fn run_scenario(sc: &Scenario, strategy: Option<Strategy>, order: Option<&[S
 
 fn run_scenario_here(sc: &Scenario, strategy: Option<Strategy>, order: Option<&[Step]>, sched_seed: u64, probe: bool) -> ConcResult {
     install_panic_hook();
+    set_cache_probe(None);
+    let _ = take_stamp_mismatch();
     crate::seed_os_randomness(crate::rng::derive(sc.seed, "os", 0));
     let dir = scratch_dir();
     let log = EventLog::new();
@@ -480,6 +525,9 @@ fn run_scenario_here(sc: &Scenario, strategy: Option<Strategy>, order: Option<&[
                         .chain(ctx.responder.verif_mutex_ids())
                     {
                         sched.name_mutex(id, n);
+                        if n == "watcher.locator_cache" {
+                            set_cache_probe(Some((id, ctx.watcher.clone())));
+                        }
                     }
                     for (i, t) in sc.threads.iter().enumerate() {
                         let kinds: Vec<&str> = t.iter().map(|o| o.kind()).collect();
@@ -691,11 +739,14 @@ fn run_scenario_here(sc: &Scenario, strategy: Option<Strategy>, order: Option<&[
                 bs_in_phase,
                 node_down_when_stuck,
                 replies_during_outage_ok: true,
+                stamp_mismatch: take_stamp_mismatch(),
             }
         })
     }));
     teos_common::verif::set_sync_hooks(None);
     crate::hooks::set_rpc_yield(None);
+    set_cache_probe(None);
+    let _ = take_stamp_mismatch();
     let _ = std::fs::remove_dir_all(&dir);
     match res {
         Ok(r) => r,
@@ -729,6 +780,7 @@ fn run_scenario_here(sc: &Scenario, strategy: Option<Strategy>, order: Option<&[
                 bs_in_phase: 0,
                 node_down_when_stuck: false,
                 replies_during_outage_ok: true,
+                stamp_mismatch: None,
             }
         }
     }
